@@ -113,6 +113,22 @@ type reachSet struct {
 	info    map[string]reachInfo
 	entries []audit.IndexEntry
 	view    *audit.LayoutView
+	edges   map[string]edge // filled by resolveEdges (before the layout is touched again)
+}
+
+// resolveEdges classifies every digest of R while the files naming them are still there.
+func (r *reachSet) resolveEdges() {
+	r.edges = map[string]edge{}
+	for d := range r.info {
+		r.edges[d] = r.computeEdge(d)
+	}
+}
+
+func (r *reachSet) edgeOf(d string) edge {
+	if e, ok := r.edges[d]; ok {
+		return e
+	}
+	return r.computeEdge(d)
 }
 
 // reach computes R from the raw index.json: entries -> manifests -> nested
@@ -189,7 +205,7 @@ type edge struct {
 	detail   string
 }
 
-func (r *reachSet) edgeOf(d string) edge {
+func (r *reachSet) computeEdge(d string) edge {
 	in, ok := r.info[d]
 	if !ok {
 		return edge{label: "unknown"}
